@@ -453,10 +453,14 @@ fn cbor_roundtrip<T: Serialize + DeserializeOwned + PartialEq>(x: &T, cap: usize
         "cbor_len": data.len(), "cbor_within_cap": data.len() <= cap,
         "cbor_rt": matches!(&back, Ok(y) if y == x), "cbor_ok": back.is_ok(),
         "rmp": hex::encode(&rmp), "rmp_rt": matches!(&rmp_back, Ok(y) if y == x),
-        "cbor": if data.len() <= 4096 { json!(hex::encode(&data)) } else { Value::Null },
+        "cbor": if data.len() <= 200_000 { json!(hex::encode(&data)) } else { Value::Null },
     });
     match rec::tree(x) {
         Ok(t) => out["tree"] = t,
+        Err(e) => out["tree_err"] = json!(e.0),
+    }
+    match rec::tree_named(x) {
+        Ok(t) => out["ntree"] = t,
         Err(e) => out["tree_err"] = json!(e.0),
     }
     out
